@@ -74,7 +74,7 @@ ROUTING_REQUIRED = [
 
 
 def plan(tier):
-    return 2600 if tier == "quick" else 120000
+    return 8000 if tier == "quick" else 120000
 
 
 def budget(tier):
